@@ -1,7 +1,7 @@
 SPECIFICATION Spec
 CONSTANTS
   Which = "down"
-  MaxN = 12
+  MaxN = 40
   StepVals = {0, 1, 3}
   HeadVals = {0, 30, 90, 180}
   IncVals = {1, 2, 5}
